@@ -123,7 +123,7 @@ Qed.
 Lemma zla_round_returns fill kd y : forall ps st na,
   1 <= na -> na <= zs_newly st ps ->
   exists ev st'', zla_round fill kd st ps na y = (ev, st'', None) /\ yields ev = [] /\
-                  (y = false -> has_ck ev = true).
+                  (y = false -> passes_ck ev = true).
 Proof.
   induction ps as [|p rest IH]; intros st na H1 H2.
   - cbn in H2. lia.
@@ -131,13 +131,13 @@ Proof.
     + destruct (st (p_idx p)) as [|x xs].
       * destruct na as [|[|na]]; [lia| |]; cbn [pred].
         -- exists (pre (kd (p_idx p)) ++ tail y), st. split; [reflexivity|]. split; [ysimp; reflexivity|].
-           intros ->. rewrite has_ck_app. cbn. apply orb_true_r.
+           intros ->. apply passes_app_r. reflexivity.
         -- destruct (IH st (S na) ltac:(lia) ltac:(lia)) as (ev & st2 & E & Y & C). rewrite E.
            exists (pre (kd (p_idx p)) ++ ev), st2. split; [reflexivity|]. split; [ysimp; exact Y|].
-           intros Hy. rewrite has_ck_app, (C Hy). apply orb_true_r.
+           intros Hy. apply passes_app_r, (C Hy).
       * destruct (IH (upd st (p_idx p) xs) na H1 H2) as (ev & st2 & E & Y & C). rewrite E.
         exists (pre (kd (p_idx p)) ++ ev), st2. split; [reflexivity|]. split; [ysimp; exact Y|].
-        intros Hy. rewrite has_ck_app, (C Hy). apply orb_true_r.
+        intros Hy. apply passes_app_r, (C Hy).
     + destruct (IH st na H1 H2) as (ev & st2 & E & Y & C). rewrite E. exists ev, st2. auto.
 Qed.
 
@@ -227,7 +227,7 @@ Lemma zla_loop_agrees fill kd : forall fuel st ps y,
   1 <= count_act ps -> zmeasure st ps < fuel ->
   exists t rows, zla_loop fuel fill kd st ps (count_act ps) y = Some t /\
                  zs_rows fuel fill st ps = Some rows /\ yields t = rows /\
-                 (y = false -> rows = [] -> has_ck t = true).
+                 (y = false -> rows = [] -> passes_ck t = true).
 Proof.
   induction fuel as [|fuel IH]; intros st ps y Hna Hf; [lia|].
   cbn [zla_loop zs_rows].
@@ -273,18 +273,92 @@ Proof.
       unfold outcome. cbn [fst snd]. now rewrite Y.
 Qed.
 
-(* C08 for the aliased call: a traversal that yields nothing passes a checkpoint *)
+(* C08 for the aliased calls: positions whose iterators are all synchronous, or a traversal that yields nothing,
+   pass a checkpoint (a cancellation check and a yield), and no element precedes the first check *)
+Lemma zla_round_starts fill kd st p rest na y :
+  p_active p = true -> is_sync (kd (p_idx p)) = true -> ckd (fst (fst (zla_round fill kd st (p :: rest) na y))).
+Proof.
+  intros Ha Hs. cbn [zla_round]. rewrite Ha. cbn [negb].
+  destruct (st (p_idx p)).
+  - destruct (pred na); [cbn [fst]; now apply sync_pre|].
+    destruct (zla_round fill kd st rest (S n) y) as [[ev st'] r]. cbn [fst]. now apply sync_pre.
+  - destruct (zla_round fill kd (upd st (p_idx p) l) rest na y) as [[ev st'] r]. cbn [fst]. now apply sync_pre.
+Qed.
+
 Theorem zip_longest_alias_checkpoints : forall fill kd st ps,
-  yields (fst (zip_longest_alias_model fill kd st ps)) = [] ->
-  has_ck (fst (zip_longest_alias_model fill kd st ps)) = true.
+  forallb (fun i => is_sync (kd i)) ps = true \/ yields (fst (zip_longest_alias_model fill kd st ps)) = [] ->
+  ckd (fst (zip_longest_alias_model fill kd st ps)).
 Proof.
   intros fill kd st ps. unfold zip_longest_alias_model, zip_longest_alias_run.
-  destruct ps as [|i r]; [reflexivity|]. set (ps := i :: r).
+  destruct ps as [|i r]; [intros _; split; reflexivity|]. set (ps := i :: r).
   destruct (zla_loop_agrees fill kd (S (alias_measure st ps)) st (map (fun i => mkP i true) ps) false)
     as (t & rows & L & S & Y & C).
   - rewrite count_act_init. cbn. lia.
   - rewrite zmeasure_init. lia.
-  - rewrite count_act_init in L. rewrite L. cbn [fst]. intros H. apply C; [reflexivity|]. now rewrite <- Y.
+  - rewrite count_act_init in L. rewrite L. cbn [fst]. intros [H|H].
+    + cbn [zla_loop] in L. unfold ps in L. cbn [map] in L.
+      cbn [forallb] in H. apply andb_prop in H as [H _].
+      match type of L with
+      | context [zla_round fill kd st (?p :: ?rs) ?n false] =>
+          pose proof (zla_round_starts fill kd st p rs n false eq_refl H) as St;
+          destruct (zla_round fill kd st (p :: rs) n false) as [[ev st'] [[[vs ps'] na']|]] eqn:R
+      end; cbn [fst] in St.
+      * destruct (zla_loop (alias_measure st (i :: r)) fill kd st' ps' na' true) as [t'|]; [|discriminate].
+        injection L as <-. now apply ckd_app_l.
+      * injection L as <-. exact St.
+    + apply good_use; [left; apply C; [reflexivity|now rewrite <- Y]|exact H].
+Qed.
+
+Lemma chain_alias_go_good ko kd : forall ps st, good (chain_alias_go ko kd st ps false).
+Proof.
+  induction ps as [|i r IH]; intros st; cbn [chain_alias_go]; [apply good_tail|].
+  apply good_app_r. destruct (st i) as [|x xs] eqn:E; cbn [iter_all nonempty orb].
+  - apply good_app_r, IH.
+  - rewrite <- app_assoc. cbn [app]. apply good_yield.
+Qed.
+
+Theorem chain_alias_checkpoints : forall ko kd st ps,
+  is_sync ko = true \/ yields (fst (chain_alias_model ko kd st ps)) = [] ->
+  ckd (fst (chain_alias_model ko kd st ps)).
+Proof.
+  intros ko kd st ps [H|H]; unfold chain_alias_model in *; cbn [fst] in *.
+  - destruct ps; cbn [chain_alias_go]; now apply sync_pre.
+  - apply good_use; [apply chain_alias_go_good|exact H].
+Qed.
+
+Theorem product_alias_checkpoints : forall rep kd st ps,
+  snd (product_alias_model rep kd st ps) = None -> ckd (fst (product_alias_model rep kd st ps)).
+Proof.
+  intros rep kd st ps. unfold product_alias_model. destruct (rep <? 0)%Z; [discriminate|]. intros _. cbn [fst].
+  apply ckd_app_r; [apply yields_collect_alias|apply ckd_emit_sync].
+Qed.
+
+Theorem starmap_alias_checkpoints : forall f ko kd st ps,
+  is_sync ko = true \/ yields (fst (starmap_alias_model f ko kd st ps)) = [] ->
+  ckd (fst (starmap_alias_model f ko kd st ps)).
+Proof.
+  intros f ko kd st ps [H|H]; unfold starmap_alias_model in *; cbn [fst] in *.
+  - destruct ps; cbn [starmap_alias_go]; now apply sync_pre.
+  - destruct ps as [|i r]; cbn [starmap_alias_go] in *.
+    + apply ckd_pre_ck.
+    + revert H. ysimp. discriminate.
+Qed.
+
+Lemma compress_self_go_good k : forall n l, length l <= n -> good (compress_self_go k l false).
+Proof.
+  induction n as [|n IH]; intros l H.
+  - destruct l; [cbn; apply good_tail|cbn in H; lia].
+  - destruct l as [|x [|b r]]; cbn [compress_self_go]; [apply good_tail|apply good_app_r, good_tail|].
+    cbn [length] in H. apply good_app_r, good_app_r. destruct (zb b); [apply (good_yield [])|apply IH; lia].
+Qed.
+
+Theorem compress_self_checkpoints : forall s,
+  is_sync (fst s) = true \/ yields (fst (compress_self_model s)) = [] ->
+  ckd (fst (compress_self_model s)).
+Proof.
+  intros [k l] [H|H]; unfold compress_self_model in *; cbn [fst snd] in *.
+  - destruct l as [|x [|b r]]; cbn [compress_self_go]; now apply sync_pre.
+  - apply good_use; [apply (compress_self_go_good k (length l) l (le_n _))|exact H].
 Qed.
 
 (* ------------------------------------------------------------------------------------------------ *)
